@@ -706,3 +706,32 @@ pub fn load_known_findings() -> Vec<Finding> {
     }
     v
 }
+
+
+// ------------------------------------------------------------------------- logging on
+//
+// tiny-http logs through the `log` facade (a default feature).  The arguments of a log
+// statement are only evaluated when a logger accepts the level, so code inside them is dead
+// unless the application has raised the level.  Every checking process installs a logger
+// that accepts everything and discards it: a panic (or a side effect) hidden in a log
+// statement then shows in every check.
+
+struct DiscardLogger;
+
+impl log::Log for DiscardLogger {
+    fn enabled(&self, _: &log::Metadata<'_>) -> bool {
+        true
+    }
+    fn log(&self, record: &log::Record<'_>) {
+        // format the arguments (that is what evaluates them), throw the text away
+        let _ = format!("{}", record.args());
+    }
+    fn flush(&self) {}
+}
+
+static DISCARD: DiscardLogger = DiscardLogger;
+
+pub fn install_discard_logger() {
+    let _ = log::set_logger(&DISCARD);
+    log::set_max_level(log::LevelFilter::Trace);
+}
